@@ -330,8 +330,8 @@ func runC07(p params) error {
 				}
 				// resumption under every second policy
 				for pol2 := 0; pol2 < 6; pol2++ {
-					for _, ch := range []string{"none", "cli", "cli-untrusted", "cli-wrongeku"} {
-						if p.tier != "thorough" && (pol+pol2)%2 == 1 && ch != "none" {
+					for _, ch := range []string{"none", "cli", "cli-untrusted", "cli-wrongeku", "cli-enc-untrusted", "cli-enc-wrongeku"} {
+						if p.tier != "thorough" && (pol+pol2)%2 == 1 && ch != "none" && !(puppet.IsECDHE(su) && strings.HasPrefix(ch, "cli-enc")) {
 							continue
 						}
 						c07AddCase(out, "resume-"+ch, c07Input{Stack: st, Suite: su, Policy: pol, Policy2: pol2, Chain: ch, CV: "ok", Resume: true})
